@@ -370,7 +370,20 @@ func Main(t *testing.T, w World) {
 		if len(out.Violations) >= maxViol {
 			continue
 		}
-		// minimise and write the replay file
+		// record the violation at once with the unminimised tape (a later crash of the process must
+		// not lose it), then minimise and overwrite
+		{
+			rf0 := ReplayFile{Property: w.Prop, World: w.Name, Seed: seed, Run: run, Clause: r.Viol.Clause, Sig: r.Viol.Sig,
+				Detail: r.Viol.Detail, Tape: r.Tape, OrigTapeLen: len(r.Tape), TraceHash: fmt.Sprintf("%016x", r.TraceHash),
+				Cfg: r.Cfg, Faults: r.Faults, Trace: r.Trace, Notes: r.Notes}
+			p0 := filepath.Join(replayDir, fmt.Sprintf("%s-%d-%d-%016x.json", w.Prop, seed, run, r.TraceHash))
+			b0, _ := json.MarshalIndent(rf0, "", " ")
+			_ = os.MkdirAll(replayDir, 0o755)
+			_ = os.WriteFile(p0, b0, 0o644)
+			seen[key] = len(out.Violations)
+			out.Violations = append(out.Violations, ViolOut{Clause: r.Viol.Clause, Sig: r.Viol.Sig, Detail: r.Viol.Detail, Replay: p0, Run: run, Count: 1})
+			write()
+		}
 		minTape, sruns := minimise(t, w, r.Tape, r.Viol.Clause, r.Viol.Sig,
 			int(envInt("VERIF_SHRINK_RUNS", 400)), time.Duration(envInt("VERIF_SHRINK_S", 30))*time.Second)
 		select {
@@ -395,8 +408,9 @@ func Main(t *testing.T, w World) {
 		b, _ := json.MarshalIndent(rf, "", " ")
 		_ = os.MkdirAll(replayDir, 0o755)
 		_ = os.WriteFile(path, b, 0o644)
-		seen[key] = len(out.Violations)
-		out.Violations = append(out.Violations, ViolOut{Clause: use.Viol.Clause, Sig: use.Viol.Sig, Detail: use.Viol.Detail, Replay: path, Run: run, Count: 1})
+		vi := seen[key]
+		cnt := out.Violations[vi].Count
+		out.Violations[vi] = ViolOut{Clause: use.Viol.Clause, Sig: use.Viol.Sig, Detail: use.Viol.Detail, Replay: path, Run: run, Count: cnt}
 		write()
 	}
 	for h := range hashes {
